@@ -385,6 +385,8 @@ class Inliner:
                                 cand2.append(fd_[0])
                         for rp in cand2 or cand:
                             rf = ref_functions().get(rp)
+                            if rf is None and ref_functions() and loader(rp) is not None:
+                                rf = {}         # a module that did not exist in the reference: everything in it is new
                             if rf is None or al.name in rf:
                                 continue
                             # a function that merely moved here from another module (it exists in the reference under the same name) is
@@ -406,6 +408,19 @@ class Inliner:
                                               {t.id for d in other.body if isinstance(d, ast.Assign) and not isinstance(d.value, ast.Constant) for t in d.targets if isinstance(t, ast.Name)}
                                         hobj.module_needs = (rp, sorted({n.id for n in ast.walk(ch) if isinstance(n, ast.Name) and n.id in top and n.id != al.name}))
                                         self.new[('f', al.asname or al.name)] = hobj
+                                        # the new functions of that module which the helper itself calls are helpers too (its inlined body refers
+                                        # to them by their bare names)
+                                        here = {d.name for d in tree.body if isinstance(d, (ast.FunctionDef, ast.ClassDef))}
+                                        for ch2 in other.body:
+                                            if isinstance(ch2, ast.FunctionDef) and ch2.name in hobj.module_needs[1] and ch2.name not in rf and ch2.name not in here \
+                                                    and ('f', ch2.name) not in self.new and not any(ch2.name in fns for fns in ref_functions().values()):
+                                                try:
+                                                    h2 = Helper(f'{rp}:{ch2.name}', ch2, None)
+                                                    h2.module_consts = hobj.module_consts
+                                                    h2.module_needs = (rp, sorted({n.id for n in ast.walk(ch2) if isinstance(n, ast.Name) and n.id in top and n.id != ch2.name}))
+                                                    self.new[('f', ch2.name)] = h2
+                                                except NotInlinable as e:
+                                                    self.skipped.append((ch2.name, str(e)))
                                     except NotInlinable as e:
                                         self.skipped.append((al.name, str(e)))
                 # `from package import module` / `import package.module as module`: new functions of that module called as module.f(...)
@@ -429,6 +444,8 @@ class Inliner:
                             alias = al.asname
                         rp = mp + '.py'
                         rf = ref_functions().get(rp)
+                        if rf is None and ref_functions() and loader(rp) is not None:
+                            rf = {}
                         if rf is None:
                             continue
                         other = loader(rp)
@@ -548,7 +565,10 @@ class Inliner:
         # loop) that is `break`; as the very last statement it is nothing at all
         if body and isinstance(body[-1], ast.Return) and body[-1].value is None:
             body = body[:-1] or [ast.Pass()]
-        if body and isinstance(body[-1], (ast.For, ast.While)) and not body[-1].orelse:
+        tail = body
+        while tail and isinstance(tail[-1], ast.With):
+            tail = tail[-1].body          # a loop that is the last thing inside the trailing `with` block(s) is still the last thing done
+        if tail and isinstance(tail[-1], (ast.For, ast.While)) and not tail[-1].orelse:
             def to_break(stmts):
                 for k, st_ in enumerate(stmts):
                     if isinstance(st_, ast.Return) and st_.value is None:
@@ -563,7 +583,7 @@ class Inliner:
                         if isinstance(st_, ast.Try):
                             for h_ in st_.handlers:
                                 to_break(h_.body)
-            to_break(body[-1].body)
+            to_break(tail[-1].body)
 
         def rec(stmts):
             out = []
